@@ -159,6 +159,7 @@ pub fn iv_reload_groups(g: &mut Gen) {
 }
 
 pub fn c06(g: &mut Gen) {
+    crate::gen_sp::sparse_top_universes(g);
     big_vec_reload(g);
     // plain values: every Serialize type at boundary sizes; serialize (checked against the document) and load back with
     // trailing data in the stream
